@@ -1,6 +1,6 @@
 """The grammar pipeline shared by the parser-level properties:
    grammars -> (host descriptors | generated TUs) -> real dumps + real traces -> TLC (design / product / traces)."""
-import os, sys, json, subprocess, time, itertools, random
+import collections, os, sys, json, subprocess, time, itertools, random
 import vlib, gram, gen_tu, traces as tracelib
 from vlib import Infra
 
@@ -89,6 +89,9 @@ def add_jobs(entry, inputs, buf=0, stream=0, verbose=True, ws=True, nl=True, tag
 def run_harness(entries, workname, env=None):
     """Builds what is needed, runs every entry's jobs through the real library, fills dump/diag/traces."""
     work = vlib.scratch(workname)
+    dup = [g for g, n in collections.Counter(e.gid for e in entries).items() if n > 1]
+    if dup:
+        raise vlib.Infra('duplicate grammar ids in one run (traces, dumps and verdicts are keyed by id): %s' % dup[:5])
     bins = host_bins()
     gens = [e for e in entries if e.mode == 'gen']
     specs = []
